@@ -13,6 +13,21 @@ CLAIMED = {
     ),
 }
 
+CLAIMED["C10"] = dict(
+    category="exploration",
+    text="Bounded-exhaustive input enumeration on the real front end: every token sequence of length <= 3 over a 71-symbol vocabulary (363k inputs), every directive x argument-list form (26k), every production at every sort (5k), every byte string of length <= 3 over a 12-byte alphabet as root and as import, and every single-token edit (delete/duplicate/swap/replace) of the mini corpus and small repository sources; each input is analysed in-process under catch_unwind in an isolated worker (abort, stack overflow and time-out are observed by the parent), every diagnostic is rendered through ariadne and through the CLI's own DiagnosticRenderer, and every reported span is checked against the file. Inputs above the bounds, and deep nesting, are not covered.",
+    design_ref="C10",
+    note="Trusts catch_unwind + worker-process death as crash observers and a 30-120 s per-case watchdog as the loop observer; the CLI exit status itself is pinned by C16's process-level runs.",
+    technique="bounded-exhaustive enumeration of token sequences, directive forms and token edits, each executed on the real front end under a panic/abort/time-out observer",
+)
+CLAIMED["C11"] = dict(
+    category="exploration",
+    text="For every base source (mini corpus + repository sources) and every token gap, each of 21 lexical irregularities x 4 followers is inserted and the real parser's root span is compared with the code tokens found by an independent hand-written scanner (validated against the repository lexer on all unmodified sources at start-up); plus every accepted mini program followed by 15 suffixes through the full front end. Exhaustive over gaps x irregularities for the files in the tier's size budget.",
+    design_ref="C11",
+    note="Trusts the reference scanner (self-checked against the real lexer on every unmodified corpus file before each run).",
+    technique="exhaustive insertion of lexical irregularities at every token gap, oracle = independent scanner vs parsed root span",
+)
+
 NOT_YET = {}
 
 def main():
